@@ -198,6 +198,18 @@ func FloatEq(a, b float64) bool {
 	return math.Abs(a-b) <= 1e-9*scale
 }
 
+// FloatEqTol is FloatEq with an additional absolute allowance e.
+func FloatEqTol(a, b, e float64) bool {
+	if FloatEq(a, b) {
+		return true
+	}
+	if math.IsNaN(a) || math.IsNaN(b) || math.IsInf(a, 0) || math.IsInf(b, 0) {
+		return false
+	}
+	scale := math.Max(1, math.Max(math.Abs(a), math.Abs(b)))
+	return math.Abs(a-b) <= 1e-9*scale+e
+}
+
 // PointMap indexes a metric result as labelKey -> T -> value. Duplicate label sets or duplicate
 // timestamps inside a series are reported in dups.
 func PointMap(m Metric) (pm map[string]map[int64]float64, labels map[string]map[string]string, dups []string) {
@@ -223,6 +235,13 @@ func PointMap(m Metric) (pm map[string]map[int64]float64, labels map[string]map[
 
 // DiffPointMaps compares got with want ("" when equal within tolerance).
 func DiffPointMaps(got, want map[string]map[int64]float64) string {
+	return DiffPointMapsTol(got, want, nil)
+}
+
+// DiffPointMapsTol is DiffPointMaps with a per-point allowance: tol returns the absolute error
+// bound of the wanted point and whether its value is undecidable (then only its presence is
+// compared).
+func DiffPointMapsTol(got, want map[string]map[int64]float64, tol func(k string, t int64) (float64, bool)) string {
 	var diffs []string
 	for k, wpts := range want {
 		gpts, ok := got[k]
@@ -237,6 +256,11 @@ func DiffPointMaps(got, want map[string]map[int64]float64) string {
 			if !ok {
 				diffs = append(diffs, fmt.Sprintf("{%s}@%d missing, want %v", k, t, wv))
 			} else if !FloatEq(gv, wv) {
+				if tol != nil {
+					if e, unc := tol(k, t); unc || FloatEqTol(gv, wv, e) {
+						continue
+					}
+				}
 				diffs = append(diffs, fmt.Sprintf("{%s}@%d = %v, want %v", k, t, gv, wv))
 			}
 		}
